@@ -106,28 +106,59 @@ func c08CloseMeteredLDB(ldb *leveldb.LevelDBDatabase) {
 }
 
 type c08PC struct {
-	c       *Ctx
-	base    string
-	it      int
-	gen     int
-	dir     string
-	ldb     *leveldb.LevelDBDatabase
-	q       *store.FileQueue // detached queue (phases A, B)
-	b       *c08Beans        // real BeansDB (phase C)
-	tb      int              // the bitcask every key is routed to
-	keys    [][]byte
-	flags   []uint32
-	want    map[int][]byte // last acknowledged value per key index
-	pend    []int          // key indexes of the records handed to the writer (detached phases), oldest first
-	trace   []string
-	nval    int
-	tornLen int // bytes of the record written by the last torn data-file write
-	lastKi  int // key index of the record that was in flight at the last crash
+	c         *Ctx
+	base      string
+	it        int
+	gen       int
+	dir       string
+	ldb       *leveldb.LevelDBDatabase
+	q         *store.FileQueue // detached queue (phases A, B)
+	b         *c08Beans        // real BeansDB (phase C)
+	tb        int              // the bitcask every key is routed to
+	keys      [][]byte
+	flags     []uint32
+	want      map[int][]byte  // last acknowledged value per key index
+	pend      []int           // key indexes of the records handed to the writer (detached phases), oldest first
+	inbox     []*store.Inject // the records the code under test REALLY handed to the writer and that the harness (playing the writer) has not stored yet, oldest first
+	lastTaken *store.Inject
+	dead      bool // the case was given up (the code under test did not hand over a record the harness had to store)
+	trace     []string
+	nval      int
+	tornLen   int // bytes of the record written by the last torn data-file write
+	lastKi    int // key index of the record that was in flight at the last crash
 }
 
 func (x *c08PC) op(op, out string) {
 	x.trace = append(x.trace, op)
+	c08Note(op)
 	x.c.Op(op, out)
+}
+
+// take: everything the queue has handed to the writer's channel since the last look (never blocks)
+func (x *c08PC) take() {
+	if x.q == nil {
+		return
+	}
+	for op := c08Recv(x.q, 0); op != nil; op = c08Recv(x.q, 0) {
+		x.inbox = append(x.inbox, op)
+	}
+}
+
+// next: the oldest record handed to the writer and not yet stored; nil = the code under test has handed over fewer
+// records than tmp.data holds unpersisted (the harness cannot play the writer any further: the case ends, the reads
+// of phase C are skipped; the op line that showed the missing hand-over is a correspondence diff)
+func (x *c08PC) next(what string) *store.Inject {
+	x.take()
+	if len(x.inbox) == 0 {
+		x.dead = true
+		x.c.Count("putcrash:record-not-handed-to-writer")
+		c08Fail(x.c, "c08/acked-record-not-redelivered/bitcask-put-crash", fmt.Sprintf("%s: tmp.data holds %d record(s) that are acknowledged and not yet stored completely, but the code under test has handed none of them to the writer (its channel is empty). Ops: %s", what, len(x.pend), strings.Join(x.trace, "; ")), x.replay())
+		return nil
+	}
+	op := x.inbox[0]
+	x.inbox = x.inbox[1:]
+	x.lastTaken = op
+	return op
 }
 
 func (x *c08PC) dataFile() string {
@@ -195,32 +226,55 @@ func (x *c08PC) recWord(ki int, val []byte) string {
 
 func (x *c08PC) put(ki int) {
 	val := x.newVal()
-	if err := x.q.Put(x.flags[ki], x.keys[ki], val); err != nil {
-		panic("queue put: " + err.Error())
-	}
+	c08Do("queue-put", func() {
+		if err := x.q.Put(x.flags[ki], x.keys[ki], val); err != nil {
+			panic("queue put: " + err.Error())
+		}
+	})
 	x.want[ki] = val
 	x.pend = append(x.pend, ki)
+	x.take()
 	recs, _, _, _ := store.VerifScanFile(filepath.Join(x.dir, "tmp.data"))
-	x.op("bput "+x.recWord(ki, val), fmt.Sprintf("pend=%d wal=%d", len(x.q.SyncFileDB.WriteChan), len(recs)))
+	x.op("bput "+x.recWord(ki, val), fmt.Sprintf("pend=%d wal=%d", len(x.inbox), len(recs)))
 	x.c.Count("putcrash:put")
 }
 
-func (x *c08PC) done() {
-	op := <-x.q.SyncFileDB.WriteChan
-	ki := x.pend[0]
-	x.pend = x.pend[1:]
-	if err := x.q.VerifWriterPut(op); err != nil {
-		panic("bitcask put: " + err.Error())
+func (x *c08PC) done() bool {
+	op := x.next("the writer is to store the oldest pending record")
+	if op == nil {
+		return false
 	}
-	x.q.VerifAfterPut(op)
+	ki := x.kiOf(op)
+	if len(x.pend) > 0 {
+		x.pend = x.pend[1:]
+	}
+	c08Do("writer-put", func() {
+		if err := x.q.VerifWriterPut(op); err != nil {
+			panic("bitcask put: " + err.Error())
+		}
+	})
+	c08Do("queue-afterput", func() { x.q.VerifAfterPut(op) })
 	x.op("bdone", x.state(x.ldb)+" pos="+x.posOf(x.ldb, ki))
 	x.c.Count("putcrash:done")
+	return true
+}
+
+func (x *c08PC) kiOf(op *store.Inject) int {
+	for i, key := range x.keys {
+		if bytes.Equal(key, op.Key) {
+			return i
+		}
+	}
+	return -1
 }
 
 func (x *c08PC) get(ki int) {
 	var val []byte
 	var err error
-	st := Safe(func() string { val, err = x.q.SyncFileDB.Get(x.flags[ki], x.keys[ki]); return "ok" })
+	st := ""
+	c08Do("bitcask-get", func() {
+		st = Safe(func() string { val, err = x.q.SyncFileDB.Get(x.flags[ki], x.keys[ki]); return "ok" })
+	})
 	out := "panic"
 	if st == "ok" {
 		out = c08GetStr(val, err)
@@ -249,8 +303,16 @@ func (x *c08PC) die(k int) (ki int) {
 		ki = x.pend[0] // the oldest pending record: its position is reported with the image
 	}
 	if k > 0 {
-		op := <-x.q.SyncFileDB.WriteChan
+		op := x.next(fmt.Sprintf("the process is to die after durable step %d of the put of the oldest pending record", k))
+		if op == nil {
+			k = 0 // nothing to be in flight: the image is the one of a process that dies between two puts
+		}
+	}
+	if k > 0 {
+		op := x.lastTaken
+		ki = x.kiOf(op)
 		var perr error
+		c08Mark("writer-put")
 		switch k {
 		case 1:
 			x.ldb.LDB().SetReadOnly() // every LevelDB write fails from now on: the put stops after the data-file write
@@ -263,6 +325,7 @@ func (x *c08PC) die(k int) (ki int) {
 		default:
 			perr = x.q.VerifWriterPut(op) // all three steps; the Done is never processed
 		}
+		c08Unmark()
 		if (k < 3) != (perr != nil) {
 			x.c.Count("putcrash:fault-not-hit")
 			c08Fail(x.c, "c08/harness/put-fault-not-hit", fmt.Sprintf("BitCask.Put was to stop after durable step %d, it returned %v", k, perr), nil)
@@ -300,7 +363,7 @@ func (x *c08PC) die(k int) (ki int) {
 	x.q.Close()
 	c08CloseMeteredLDB(x.ldb)
 	os.RemoveAll(x.dir)
-	x.dir, x.q, x.ldb, x.pend = img, nil, nil, nil
+	x.dir, x.q, x.ldb, x.pend, x.inbox = img, nil, nil, nil, nil
 	x.lastKi = ki
 	return ki
 }
@@ -320,19 +383,22 @@ func (x *c08PC) crash(k int) bool {
 	ki := x.die(k)
 	x.ldb = c08OpenMeteredLDB(filepath.Join(x.dir, "index"))
 	var err error
-	st := Safe(func() string {
-		x.q, err = store.VerifNewDetachedQueueDB(x.dir, x.ldb)
-		if err != nil {
-			return "error: " + err.Error()
-		}
-		return "ok"
+	st := ""
+	c08Do("queue-restart", func() {
+		st = Safe(func() string {
+			x.q, err = store.VerifNewDetachedQueueDB(x.dir, x.ldb)
+			if err != nil {
+				return "error: " + err.Error()
+			}
+			return "ok"
+		})
 	})
 	if st != "ok" {
 		x.op(x.crashName(k), "restart-fails")
 		c08Fail(x.c, "c08/bitcask-put-crash/reopen-panics", fmt.Sprintf("crash after durable step %d (-1: inside step 1) of a BitCask.Put: bitcask / queue start-up fails on the image (%s)", k, st), x.replay())
 		return false
 	}
-	// what checkFile redelivered
+	// what tmp.data holds (mirror) and what checkFile REALLY redelivered (inbox)
 	recs, _, _, _ := store.VerifScanFile(filepath.Join(x.dir, "tmp.data"))
 	for _, r := range recs {
 		for i, key := range x.keys {
@@ -341,7 +407,11 @@ func (x *c08PC) crash(k int) bool {
 			}
 		}
 	}
-	x.op(x.crashName(k), fmt.Sprintf("%s pend=%d pos=%s", x.state(x.ldb), len(x.q.SyncFileDB.WriteChan), x.posOf(x.ldb, ki)))
+	x.take()
+	if len(x.inbox) != len(recs) {
+		x.c.Count("putcrash:restart-redelivers-other-than-wal")
+	}
+	x.op(x.crashName(k), fmt.Sprintf("%s pend=%d pos=%s", x.state(x.ldb), len(x.inbox), x.posOf(x.ldb, ki)))
 	return true
 }
 
@@ -356,7 +426,10 @@ func (x *c08PC) readAll(when string) {
 	for ki := range x.keys {
 		var val []byte
 		var err error
-		st := Safe(func() string { val, err = x.b.db.Get(x.flags[ki], x.keys[ki]); return "ok" })
+		st := ""
+		c08Do("beansdb-get", func() {
+			st = Safe(func() string { val, err = x.b.db.Get(x.flags[ki], x.keys[ki]); return "ok" })
+		})
 		out := "panic"
 		if st == "ok" {
 			out = c08GetStr(val, err)
@@ -403,7 +476,7 @@ func (x *c08PC) inspect(k int, ki int) {
 	os.RemoveAll(tmp)
 	switch {
 	case k == 1 || k == 2 || (k == -1 && x.tornLen > 0):
-		if size <= cur && k != -1 {
+		if size <= cur && k != -1 && !x.dead { // (a dead case: the harness had no record to put in flight)
 			c08Fail(x.c, "c08/harness/put-fault-not-hit", fmt.Sprintf("image after durable step %d of a put: data file %d bytes, cursor %d — the file is not ahead of the cursor", k, size, cur), nil)
 		}
 		x.c.Count("putcrash:image:file-ahead-of-cursor")
@@ -422,7 +495,10 @@ func (x *c08PC) openBeans(opname string, sig string) bool {
 		x.b = nil
 		return false
 	}
-	if !c08QueueIdle(x.b.db.Queue, 15*time.Second) {
+	c08MarkFor("writer-drain", 25*time.Second)
+	idle := c08QueueIdle(x.b.db.Queue, 15*time.Second)
+	c08Unmark()
+	if !idle {
 		x.op(opname, "hang")
 		c08Fail(x.c, "c08/bitcask-put-crash/recovery-hang", fmt.Sprintf("%s: the redelivery does not complete. Ops: %s", opname, strings.Join(x.trace, "; ")), x.replay())
 		return false
@@ -433,11 +509,16 @@ func (x *c08PC) openBeans(opname string, sig string) bool {
 
 func (x *c08PC) putDrained(ki int) bool {
 	val := x.newVal()
-	if err := x.b.db.Put(x.flags[ki], x.keys[ki], val); err != nil {
-		panic("beansdb put: " + err.Error())
-	}
+	c08Do("beansdb-put", func() {
+		if err := x.b.db.Put(x.flags[ki], x.keys[ki], val); err != nil {
+			panic("beansdb put: " + err.Error())
+		}
+	})
 	x.want[ki] = val
-	if !c08QueueIdle(x.b.db.Queue, 15*time.Second) {
+	c08MarkFor("writer-drain", 25*time.Second)
+	idle := c08QueueIdle(x.b.db.Queue, 15*time.Second)
+	c08Unmark()
+	if !idle {
 		x.op("bputd "+x.recWord(ki, val), "hang")
 		c08Fail(x.c, "c08/bitcask-put-crash/recovery-hang", "a Put after the restart is never acknowledged by the writer. Ops: "+strings.Join(x.trace, "; "), x.replay())
 		return false
@@ -536,6 +617,27 @@ func c08PutCrashCase(c *Ctx, base string, it int) {
 		x.get(1) // b's position points at a mixture of a's and b's bytes
 		x.get(0)
 		finalK = 2
+	case 6: // a STORED key is overwritten: the new value is acknowledged (fsynced in tmp.data), the writer has not touched it
+		// when the process dies between two puts; the key has a position in the index (of the old value)
+		x.put(0)
+		x.done()
+		x.put(0)
+		x.put(1)
+		finalK = 0
+		c.Count("putcrash:overwrite-of-indexed-key-pending-at-crash")
+	case 7: // the same, restarted by the detached queue first (the redelivery is compared record by record), then a
+		// crash inside the redelivered put of the overwriting record
+		x.put(0)
+		x.done()
+		x.put(0)
+		if !x.crash(0) {
+			return
+		}
+		x.put(2)
+		x.done()
+		x.get(0)
+		finalK = 1
+		c.Count("putcrash:overwrite-of-indexed-key-pending-at-crash")
 	default:
 		gens := 1 + c.Rnd.Intn(3)
 		for g := 0; g < gens; g++ {
@@ -569,6 +671,9 @@ func c08PutCrashCase(c *Ctx, base string, it int) {
 	// ---- phase C: the last crash image is opened by the real BeansDB ----
 	if len(x.pend) == 0 {
 		finalK = 0
+	}
+	if x.dead {
+		c.Count("putcrash:case-with-missing-hand-over")
 	}
 	ki := x.die(finalK)
 	x.inspect(finalK, ki)
@@ -605,12 +710,13 @@ func c08PutCrashCase(c *Ctx, base string, it int) {
 }
 
 func c08PutCrashFamily(c *Ctx, base string) {
-	n := 8
+	n := 10
 	if c.Tier == "thorough" {
 		n = 40 + c.N/10
 	}
 	for it := 0; it < n; it++ {
 		it := it
+		c08Case(fmt.Sprintf("bitcask-put-crash case %d", it))
 		c08Guard(c, "putcrash", func() { c08PutCrashCase(c, base, it) })
 	}
 }
